@@ -442,7 +442,7 @@ def random_spec(rng, sid, nmin=3, nmax=6, external=False, decoy=False, struct_va
     elems = []
     produced = []   # abstract types available
     args = []
-    alias = {'a/util': 'util', 'b/util': 'butil', 'c/vals': 'vals'} if external else {}
+    alias = {'a/util': 'util', 'b/util': 'butil', 'c/vals': 'vals', 'c/ifs': 'ifs'} if external else {}
     nT = [0]
     twin_done = [False]
     map_done = [False]
@@ -569,7 +569,7 @@ def random_spec(rng, sid, nmin=3, nmax=6, external=False, decoy=False, struct_va
         if external and rng.random() < 0.5:
             pkg = rng.choice(['a/util', 'b/util'])
         t = new_type(pkg=pkg)
-        bind = rng.random() < 0.3 and types[t]['form'] == 'ptr'
+        bind = rng.random() < (0.55 if external else 0.3) and types[t]['form'] == 'ptr'
         if bind:
             fname = 'New%s' % t      # the documented convention for Bind: constructor New<Type>
         else:
@@ -583,7 +583,8 @@ def random_spec(rng, sid, nmin=3, nmax=6, external=False, decoy=False, struct_va
         if bind:
             iname = 'I%d' % nI
             nI += 1
-            types[iname] = {'form': 'iface', 'pkg': ''}
+            # the interface may live in a package of its own, which then appears in the configuration ONLY as a type argument
+            types[iname] = {'form': 'iface', 'pkg': 'c/ifs' if (external and rng.random() < 0.7) else ''}
             elems.append({'kind': 'bind', 'iface': iname, 'impl': t})
             produced.append(iname)
             if rng.random() < 0.4:
@@ -634,6 +635,10 @@ def random_spec(rng, sid, nmin=3, nmax=6, external=False, decoy=False, struct_va
                     sup[t_] = p
         cands = [f['provides'] for f in funcs if f['name'] != 'NewApp' and not f.get('decoy') and types[f['provides']]['form'] in ('ptr', 'val')]
         bound_impls = [e['impl'] for e in elems if e['kind'] == 'bind' and e['impl'] in cands]
+        ext_ifaces = [e['iface'] for e in elems if e['kind'] == 'bind' and types[e['iface']].get('pkg')]
+        if ext_ifaces and rng.random() < 0.6:
+            cands = cands + ext_ifaces
+            bound_impls = ext_ifaces      # prefer an injector whose RESULT is the interface of another package
         if cands:
             # prefer the implementation type of a binding: the second injector then lists its provider WITHOUT the binding
             t2 = rng.choice(bound_impls) if bound_impls and rng.random() < 0.6 else rng.choice(cands)
